@@ -235,7 +235,44 @@ fn compare(target: &str, seed: u64, a: &[u64], b: &[u64]) -> Result<(), Fail> {
     Ok(())
 }
 
+/// ZeroCrossing on the simplest signals there are: one (or two) sign changes at every position, several symbol lengths.
+/// The block keeps integer sample counters next to float clocks; whatever the crossing position, no call may panic.
+fn zc_single_crossings(seed: u64) -> Result<u64, Fail> {
+    let mut works = 0u64;
+    for sps in [2.5f32, 3.7, 10.0, 25.0] {
+        for pos in 0..260usize {
+            for second in [0usize, 7] {
+                let mut sig: Vec<Float> = vec![-1.0; pos];
+                sig.extend(std::iter::repeat(1.0).take(if second > 0 { second } else { 320 }));
+                if second > 0 {
+                    sig.extend(std::iter::repeat(-1.0).take(320));
+                }
+                let (w, r) = new_stream::<Float>();
+                let (mut b, o) = ZeroCrossing::new(r, sps, 0.0);
+                let mut wb = w.write_buf().unwrap();
+                wb.fill_from_slice(&sig);
+                wb.produce(sig.len(), &[]);
+                for _ in 0..4 {
+                    let ok = std::panic::catch_unwind(std::panic::AssertUnwindSafe(|| { let _ = b.work(); })).is_ok();
+                    works += 1;
+                    if !ok {
+                        return Err(Fail { target: "zc".into(), prop: "C15", label: "C15.zc.work-does-not-panic".into(),
+                            what: format!("samples per symbol {sps}: {pos} negative samples, then {} -- work() panicked", if second > 0 { format!("{second} positive, then negative ones") } else { "positive ones".into() }), seed });
+                    }
+                    let (rb, _) = o.read_buf().unwrap();
+                    let n = rb.len();
+                    rb.consume(n);
+                }
+            }
+        }
+    }
+    Ok(works)
+}
+
 fn one(target: &str, seed: u64) -> Result<u64, Fail> {
+    if target == "zc" && seed % 100 == 0 {
+        zc_single_crossings(seed)?;
+    }
     // float -> float blocks need > 1_024_000 samples to fill their output; complex output fills at 512_000
     // ... times the block's decimation ratio, so that the output really does fill up in the adversarial run
     let ratio = match target { "zc" | "zcclk" => 4, "symsync" | "ssclk" => 5, "firf" => 1 + (seed % 3) as usize, _ => 1 };
